@@ -439,6 +439,18 @@ pub const CTAGS: &[&str] = &["allow.skipped", "a", "b", "serial", "allow.skipped
 /// writers must keep the two apart
 pub fn gen_catalog_specs_twins(rng: &mut Rng, max_feats: usize) -> Vec<FeatSpec> {
     let mut v = gen_catalog_specs(rng, max_feats);
+    // steps with IDENTICAL text (different positions): in some features every step of every scenario, and
+    // the background steps, read the same — a step is identified by more than its text
+    for f in v.iter_mut() {
+        if rng.chance(1, 4) {
+            for b in &mut f.bg { b.value = "same text".to_owned(); }
+            for sc in &mut f.scens { for st in &mut sc.steps { st.value = "same text".to_owned(); } }
+            for r in &mut f.rules {
+                for b in &mut r.bg { b.value = "same text".to_owned(); }
+                for sc in &mut r.scens { for st in &mut sc.steps { st.value = "same text".to_owned(); } }
+            }
+        }
+    }
     if rng.chance(1, 5) {
         let i = rng.below(v.len());
         let mut twin = v[i].clone();
